@@ -57,6 +57,21 @@ def run(ctx: Ctx) -> None:
                         "(local, DBFS) or by its text (memory) - agree on which paths are the same")
     n13 = S.one_spelling_per_path(ctx, "C08.R13")
     rep.floor("C08.R13", n13, 1)
+    rep.rule("C08.R14", "blobs round-trip whatever their value: the memory store reports a stored None / falsy blob present (membership in its mapping, not a look at the value)")
+    n14 = S.memory_presence_by_membership(ctx, "C08.R14")
+    rep.floor("C08.R14", n14, 1)
+    from .storerules import memory_readers_pure as _mrp
+    rep.rule("C08.R17", "once stored, a blob stays present and absent keys stay absent whatever is read: the reading methods of the memory store change none of its tables")
+    _n_mrp = _mrp(ctx, "C08.R17")
+    rep.floor("C08.R17", _n_mrp, 3)
+    rep.rule("C08.R15", "a committed path resolves to the key it was committed with, whatever else is asked in the same call: fetch_paths of every store files each requested path in "
+                        "one mapping that lives across the loop (as C19.R14)")
+    n15 = S.every_path_answered(ctx, "C08.R15")
+    rep.floor("C08.R15", n15, 2)
+    rep.rule("C08.R16", "as C19.R13: every `dbutils.fs.put` of the DBFS store overwrites - a path committed again with another key, or a key stored again, replaces the record")
+    from .c19 import puts_overwrite
+    n16 = puts_overwrite(ctx, "C08.R16")
+    rep.floor("C08.R16", n16, 1)
     rep.rule("C08.R5", "store_blob returns normally only after the commit marker is published (a stored key is reported present)")
     S.store_always_publishes(ctx, v, "C08.R5")
     rep.rule("C08.R6", "committing a path removes / replaces nothing but that path's own entry; the cache wrapper answers path queries from the store")
